@@ -96,6 +96,8 @@ def explore(ctx):
                 if bad <= 5:
                     ctx.violation({"lines": c["lines"], "meta": {}}, ml, il, note="two distinct values print the same: %s / %s" % (texts[text], a))
             texts[text] = a
+            if " . " in bytes.fromhex(text).decode("utf-8", "replace"):
+                kinds["dotted"] += 1
             for k2, tag in (("int", " i"), ("rat", "q"), ("real", "r"), ("vector", "(vec"), ("list", "(pair")):
                 if tag.strip() in a:
                     kinds[k2] += 1
